@@ -30,3 +30,5 @@ Definition x_seqres_remove_keep (rsec sec : nat) : bool := negb (Nat.eqb rsec se
 Definition x_seqres_remove {A} (sec_of : A -> nat) (present : bool) (old : list A)
   (sec : nat) : list A :=
   if present then filter (fun r => x_seqres_remove_keep (sec_of r) sec) old else old.
+
+Definition x_result_linked_before_any_return : bool := true.
